@@ -4,11 +4,16 @@
    handler calls, the device events seen by iotrace.so, the backing file read directly) must be exactly the step
    the action of UnixIoCache for that entry point takes; the invariants of UnixIoCache (Coherent,
    DurableAfterFlush, ErrorReported, Refines, ...) and the refinement of IoChannel are evaluated at every line.
-   Lines "o_*" are the calls made on an undo_io channel wrapped around the unix channel: what the caller of the
-   wrapper sees must agree with `logical`.                                                                   *)
-EXTENDS UnixIoCache, Json, IOUtils
-VARIABLES l
-tvars == <<vars, l>>
+   Behaviours whose reset line has cfg[4] = 1 are histories applied to an undo_io channel wrapped around the unix
+   channel: o_begin / o_end bracket every call made on the wrapper, the nested calls on the unix channel are the
+   ordinary lines in between and the calls on the undo file's channel are the "u_*" lines.  They must be behaviours
+   of StackedIo (the order of the nested calls, which results are dropped, the value the wrapper returns), and
+   StackedIo's properties at the wrapper's level (OuterCoherent, OuterDurable, OuterLogical, OuterErrorReported,
+   OuterCloseClean) are evaluated at every o_end.                                                            *)
+EXTENDS StackedIo, Json, IOUtils
+VARIABLES l,
+          stacked       \* the behaviour is a history on the wrapper
+tvars == <<vars, svars, l, stacked>>
 Tr == ndJsonDeserialize(IOEnv.TRACE)
 Ln == Tr[l]
 IsEvent(e) == l <= Len(Tr) /\ Tr[l].e = e /\ l' = l + 1
@@ -35,43 +40,55 @@ CfgOf == [nocache |-> Ln.cfg[6] = 1, wt |-> Ln.cfg[1] = 1, bounce |-> Ln.cfg[2] 
 Fresh == [g \in G |-> 1]
 NoRes(op) == [op |-> op, ret |-> 0, rng |-> {}, data |-> <<>>, rok |-> TRUE, ev |-> <<>>, hb |-> <<>>, nfail |-> 0, fg |-> {}]
 
+Plain == ~stacked /\ UNCHANGED <<svars, stacked>>
 \* a new behaviour: fresh backing file (tag 1 everywhere), channel opened with the logged configuration
 TReset == /\ IsEvent("reset") /\ Ln.a = NG
           /\ dev' = Fresh /\ logical' = Fresh /\ slot' = NoSlots /\ lru' = <<>> /\ bs' = InitBS /\ open' = TRUE
           /\ cfg' = CfgOf /\ unrep' = FALSE /\ res' = NoRes("open")
           /\ SlotsMatch /\ FileMatch /\ bs' = Ln.bs
-TOpen == /\ IsEvent("open") /\ Open(Ln.cfg[1] = 1, Ln.cfg[2] = 1, Ln.cfg[3] = 1, IF Dio THEN 4096 ELSE 0, Ln.cfg[6] = 1)
-         /\ SlotsMatch /\ FileMatch /\ bs' = Ln.bs
-TRead == /\ IsEvent("read") /\ Read(Ln.a, Ln.b, FOf) /\ Logged
+          /\ stacked' = (Ln.cfg[4] = 1) /\ oc' = IdleOc /\ ust' = FreshUst(InitBS) /\ ores' = NoOres /\ ounrep' = FALSE
+OpenArgs(A(_, _, _, _, _)) == A(Ln.cfg[1] = 1, Ln.cfg[2] = 1, Ln.cfg[3] = 1, IF Dio THEN 4096 ELSE 0, Ln.cfg[6] = 1)
+TOpen == /\ IsEvent("open") /\ SlotsMatch /\ FileMatch /\ bs' = Ln.bs /\ UNCHANGED stacked
+         /\ IF stacked THEN OpenArgs(OOpen) ELSE OpenArgs(Open) /\ UNCHANGED svars
+TRead == /\ IsEvent("read") /\ Read(Ln.a, Ln.b, FOf) /\ Logged /\ Plain
          /\ (Ln.ret = 0 => res'.data = Ln.data)
-TWrite == IsEvent("write") /\ Write(Ln.a, Ln.b, Ln.tags, FOf) /\ Logged
-TWByte == IsEvent("wbyte") /\ WriteByte(Ln.a, Ln.b, Ln.tags, FOf) /\ Logged
-TZero == IsEvent("zero") /\ Zeroout(Ln.a, Ln.b, Ln.ret = 0, 0, FOf) /\ Logged
-TDiscard == IsEvent("discard") /\ Zeroout(Ln.a, Ln.b, Ln.ret = 0, 0, FOf) /\ Logged
-TFlush == IsEvent("flush") /\ Flush(FOf) /\ Logged
-TClose == IsEvent("close") /\ Close(FOf) /\ Logged
-TBlksize == IsEvent("blksize") /\ SetBlksize(Ln.a, FOf) /\ Logged
-TCacheOff == IsEvent("cacheoff") /\ CacheOff(FOf) /\ Logged
-TCacheOn == IsEvent("cacheon") /\ CacheOn /\ Logged
-TReadahead == IsEvent("readahead") /\ UNCHANGED vars            \* posix_fadvise only
-TSkip == IsEvent("skip") /\ UNCHANGED vars                      \* the driver refused a request outside the backing file
+TWrite == IsEvent("write") /\ Write(Ln.a, Ln.b, Ln.tags, FOf) /\ Logged /\ Plain
+TWByte == IsEvent("wbyte") /\ WriteByte(Ln.a, Ln.b, Ln.tags, FOf) /\ Logged /\ Plain
+TZero == IsEvent("zero") /\ Zeroout(Ln.a, Ln.b, Ln.ret = 0, 0, FOf) /\ Logged /\ Plain
+TDiscard == IsEvent("discard") /\ Zeroout(Ln.a, Ln.b, Ln.ret = 0, 0, FOf) /\ Logged /\ Plain
+TFlush == IsEvent("flush") /\ Flush(FOf) /\ Logged /\ Plain
+TClose == IsEvent("close") /\ Close(FOf) /\ Logged /\ Plain
+TBlksize == IsEvent("blksize") /\ SetBlksize(Ln.a, FOf) /\ Logged /\ Plain
+TCacheOff == IsEvent("cacheoff") /\ CacheOff(FOf) /\ Logged /\ Plain
+TCacheOn == IsEvent("cacheon") /\ CacheOn /\ Logged /\ Plain
+TReadahead == IsEvent("readahead") /\ UNCHANGED vars /\ Plain            \* posix_fadvise only
+TSkip == IsEvent("skip") /\ UNCHANGED <<vars, svars, stacked>>          \* the driver refused a request (outside the backing file; block sizes of wrapper and channel differ)
 
-\* ---- calls on the undo_io wrapper: only what its caller sees
-ORng == IF Ln.e = "o_wbyte" THEN Ln.a..(Ln.a + Ln.b - 1) ELSE Rng(Ln.a, Ln.b)
-Seen(sq, g) == sq[g - First(ORng) + 1]
-TORead == /\ IsEvent("o_read") /\ UNCHANGED vars
-          /\ Ln.ret = 0 => \A g \in ORng : logical[g] = UNK \/ Seen(Ln.data, g) = logical[g]
-TOWrite == /\ (IsEvent("o_write") \/ IsEvent("o_wbyte")) /\ UNCHANGED vars
-           /\ Ln.ret = 0 => \A g \in ORng : logical[g] = Seen(Ln.tags, g)
-TOZero == /\ (IsEvent("o_zero") \/ IsEvent("o_discard")) /\ UNCHANGED vars
-          /\ Ln.ret = 0 => \A g \in ORng : logical[g] = 0
-TOFlush == /\ (IsEvent("o_flush") \/ IsEvent("o_close")) /\ UNCHANGED vars
-           /\ Ln.ret = 0 => Agrees(logical, dev, G)
-TOOther == (IsEvent("o_blksize") \/ IsEvent("o_cacheoff") \/ IsEvent("o_cacheon") \/ IsEvent("o_readahead")) /\ UNCHANGED vars
+\* ---- a history on the undo_io wrapper: every line is the step of StackedIo for it
+Nested == stacked /\ UNCHANGED stacked
+TOBegin == IsEvent("o_begin") /\ Nested /\ OBegin(Ln.op, Ln.a, Ln.b, Ln.tags)
+TNRead == /\ IsEvent("read") /\ Nested /\ NRead(Ln.a, Ln.b, FOf) /\ Logged
+          /\ (Ln.ret = 0 => res'.data = Ln.data)
+TNWrite == IsEvent("write") /\ Nested /\ Ln.tags = oc.tags /\ NWrite(Ln.a, Ln.b, Ln.tags, FOf) /\ Logged
+TNWByte == IsEvent("wbyte") /\ Nested /\ Ln.tags = oc.tags /\ NWByte(Ln.a, Ln.b, Ln.tags, FOf) /\ Logged
+TNZero == IsEvent("zero") /\ Nested /\ NZero("zero", Ln.a, Ln.b, Ln.ret = 0, 0, FOf) /\ Logged
+TNDiscard == IsEvent("discard") /\ Nested /\ NZero("discard", Ln.a, Ln.b, Ln.ret = 0, 0, FOf) /\ Logged
+TNFlush == IsEvent("flush") /\ Nested /\ NFlush(FOf) /\ Logged
+TNClose == IsEvent("close") /\ Nested /\ NClose(FOf) /\ Logged
+TNBlksize == IsEvent("blksize") /\ Nested /\ NBlksize(Ln.a, FOf) /\ Logged
+TNCacheOff == IsEvent("cacheoff") /\ Nested /\ NCacheOff(FOf) /\ Logged
+TNCacheOn == IsEvent("cacheon") /\ Nested /\ NCacheOn /\ Logged
+TNReadahead == IsEvent("readahead") /\ Nested /\ NReadahead(Ln.ret)
+TUCall == \E k \in {"blksize", "read", "write", "flush", "close"} : IsEvent("u_" \o k) /\ Nested /\ UCall(k, Ln.ret)
+TOEnd == /\ IsEvent("o_end") /\ Nested /\ OFinish
+         /\ Ln.op = oc.op /\ Ln.ret = oc.ret                               \* the wrapper returned what its entry point computes
+         /\ (oc.op = "read" /\ Ln.ret = 0) => Ln.data = oc.data             \* ... and handed the nested read's data to its caller
 
-TraceInit == InitWith(Fresh) /\ l = 1
+TraceInit == InitWith(Fresh) /\ l = 1 /\ stacked = FALSE /\ SInit
 TraceNext == TReset \/ TOpen \/ TRead \/ TWrite \/ TWByte \/ TZero \/ TDiscard \/ TFlush \/ TClose \/ TBlksize
-             \/ TCacheOff \/ TCacheOn \/ TReadahead \/ TSkip \/ TORead \/ TOWrite \/ TOZero \/ TOFlush \/ TOOther
+             \/ TCacheOff \/ TCacheOn \/ TReadahead \/ TSkip
+             \/ TOBegin \/ TNRead \/ TNWrite \/ TNWByte \/ TNZero \/ TNDiscard \/ TNFlush \/ TNClose \/ TNBlksize
+             \/ TNCacheOff \/ TNCacheOn \/ TNReadahead \/ TUCall \/ TOEnd
 TraceSpec == TraceInit /\ [][TraceNext]_tvars
 TraceAccepted == TLCGet("stats").diameter - 1 = Len(Tr)
 RefinesIo == [][IO!NextObs \/ (l <= Len(Tr) /\ Tr[l].e = "reset")]_vars      \* a reset line starts a new behaviour
